@@ -111,12 +111,18 @@ where
         Err(Error::EdgeNotFound)
     }
 
-    pub fn clear_inbound(&mut self) {
-        self.inbound.clear();
-    }
-
-    pub fn clear_outbound(&mut self) {
-        self.outbound.clear();
+    /// Empties both lists and hands their former contents to the caller.
+    #[allow(clippy::type_complexity)]
+    pub fn take_all(
+        &mut self,
+    ) -> (
+        Vec<(WeakNode<K, N, E>, E)>,
+        Vec<(WeakNode<K, N, E>, E)>,
+    ) {
+        (
+            std::mem::take(&mut self.outbound),
+            std::mem::take(&mut self.inbound),
+        )
     }
 
     pub fn sizeof(&self) -> usize {
